@@ -114,4 +114,7 @@ func checkC05(e *Env, r *Report) {
 	r.Coverage["configs"] = len(cfgs)
 	r.Coverage["episodes"] = len(eps)
 	r.Sample(map[string]any{"episode_files": eps[0].Files[:min(3, len(eps[0].Files))], "src": eps[0].Src, "none": eps[0].None})
+	if err := f.bindingDemo(); err != nil {
+		r.Fatal = err.Error()
+	}
 }
